@@ -1,6 +1,8 @@
-(** C16 — Store events are ordered, lossless, never ahead of the state they announce
-    (the part about the legacy per-subscriber emitter, [events/events.go handleSubscriber]). *)
-From Orbit Require Import Spec.Statements Proofs.EmitterProofs.
+(** C16 — Store events are ordered, lossless, never ahead of the state they announce:
+    the legacy per-subscriber emitter ([events/events.go handleSubscriber]) and, below, the
+    store itself with local writes running concurrently with the replication merge
+    ([stores/basestore/base_store.go AddOperation / replicationLoadComplete]). *)
+From Orbit Require Import Spec.Statements Proofs.EmitterProofs Proofs.StoreConcProofs.
 
 (** With in-flight tracking (G1 treats the event G2 has removed from the overflow list but
     not sent yet as still queued — the repaired tree): for every channel capacity and every
@@ -40,3 +42,73 @@ Theorem C16_refuted_without_inflight_tracking :
     quiescent s /\ e_out s <> emitted sched.
 Proof. exact emitter_refuted. Qed.
 Print Assumptions C16_refuted_without_inflight_tracking.
+
+(** * The store: local writers concurrent with the replication merger ([Model/StoreConc.v])
+
+    [srun true] = the index rebuilds of all threads are serialised (a mutex around
+    [BaseStore.updateIndex], the repaired tree).  All statements are for every number of
+    writers [n], every list of merge batches and EVERY schedule (interleaving of the writers'
+    and the merger's atomic steps; disabled steps are skipped). *)
+
+(** Never ahead of the state.  The view reflects only entries of the log; neither the log
+    nor the view ever loses an entry along a run ([s2] is any continuation of [s1]); and the
+    entries of every emitted write / replicated event are reflected by the view at the moment
+    considered and in every later state — a subscriber can only receive an event at or after
+    its emission, so whenever it receives one, queries already reflect the announced entries. *)
+Theorem C16_store_events_never_ahead :
+  forall n batches sched1 sched2,
+    let s1 := srun true sched1 (sinit n batches) in
+    let s2 := srun true sched2 s1 in
+    incl (s_view s1) (s_log s1) /\ incl (s_view s1) (s_view s2) /\ incl (s_log s1) (s_log s2) /\
+    (forall ev, In ev (s_events s1) ->
+       incl (ev_entries ev) (s_view s1) /\ In ev (s_events s2) /\ incl (ev_entries ev) (s_view s2)).
+Proof.
+  intros n batches sched1 sched2.
+  destruct (storeconc_view_monotone n batches sched1 sched2) as [A [B C]].
+  exact (conj A (conj B (conj C (storeconc_events_never_ahead n batches sched1 sched2)))).
+Qed.
+Print Assumptions C16_store_events_never_ahead.
+
+(** Exactly once.  In every reachable state the emitted list holds exactly one write event
+    for every writer that has passed its emit step, carrying the entry that writer appended
+    (writer [i] appends entry [i]; it is in the log), and none for any other writer — in
+    particular none for a writer that has not appended; the replicated events are exactly the
+    batches merged so far, in the merger's order (followed by the batch in progress and the
+    batches not yet handed over they make up the given list). *)
+Theorem C16_store_events_exactly_once :
+  forall n batches sched,
+    let s := srun true sched (sinit n batches) in
+    (forall i, w_emitted s i -> count_occ Nat.eq_dec (wevents (s_events s)) i = 1%nat) /\
+    (forall i, ~ w_emitted s i -> count_occ Nat.eq_dec (wevents (s_events s)) i = 0%nat) /\
+    (forall i, In i (wevents (s_events s)) -> w_appended s i /\ In i (s_log s)) /\
+    revents (s_events s) ++ mcur (s_mpc s) ++ s_todo s = batches.
+Proof. exact storeconc_events_exactly_once. Qed.
+Print Assumptions C16_store_events_exactly_once.
+
+(** Complete at rest.  When every writer has returned and every batch has been merged, the
+    view reflects exactly the log, the log holds exactly the writers' entries and the entries
+    of all batches, there are [n] write events and the replicated events are the batches. *)
+Theorem C16_store_view_complete_at_rest :
+  forall n batches sched,
+    let s := srun true sched (sinit n batches) in
+    sall_done s ->
+    (forall x, In x (s_view s) <-> In x (s_log s)) /\
+    (forall x, In x (s_log s) <-> (x < n)%nat \/ In x (concat batches)) /\
+    length (wevents (s_events s)) = n /\ revents (s_events s) = batches.
+Proof. exact storeconc_complete_at_rest. Qed.
+Print Assumptions C16_store_view_complete_at_rest.
+
+(** Without the serialisation ([srun false], the tree before the repair: [UpdateIndex] reads
+    the log before it takes the index lock, and a local write holds [muWrite] while the merge
+    holds [muJoining]) a stale rebuild can be applied after a fresher one: there is a schedule
+    after which every thread is done, yet an emitted event's entries are not reflected by the
+    view and the view is not the whole log (witness: one writer, one batch; the writer reads
+    the log, the merger joins, rebuilds, persists and emits, the writer applies its rebuild). *)
+Theorem C16_refuted_unserialised_index :
+  exists n batches sched,
+    let s := srun false sched (sinit n batches) in
+    sall_done s /\
+    (exists ev, In ev (s_events s) /\ ~ incl (ev_entries ev) (s_view s)) /\
+    ~ (forall x, In x (s_log s) -> In x (s_view s)).
+Proof. exact storeconc_refuted_unserialised. Qed.
+Print Assumptions C16_refuted_unserialised_index.
